@@ -48,10 +48,23 @@
       [pick cov k l] : the elements of [l] (positions k, k+1, ...) at the positions [cov]
       selects, each once, ascending; [covers rs k] : k lies in one of the ranges;
       [bytes_at_addrs content rs] : the image bytes whose address 4 GiB - size + offset is
-      covered by [rs]; [bytes_at_offsets content rs] : the image bytes whose offset is. *)
+      covered by [rs]; [bytes_at_offsets content rs] : the image bytes whose offset is;
+    - (Model/VolumeOf.v) [volume_of size nodes refs] : VolumeOf(inner).Data on an image of [size]
+      bytes, [refs] = the references of the inner data source's Data, each (mapped, ranges):
+      physical addresses behind PhysMemMapper (mapped = true) or image offsets without a mapper;
+      the result = the ranges of the returned reference ([] = the empty Data);
+      [resolved_all size refs] : every range of every reference, resolved, in the order given;
+      [volume_of_offsets nodes rs] : one look-up ([volume_pick], section 7) per resolved range
+      AS GIVEN, then SortAndMerge -- the volumes as image offsets;
+      [located_volume nodes v] : the walker reports v as a volume with a known offset;
+      [in_range v a] : offset a lies in v; [volumes_ok nodes] : the located volumes are ranges
+      (offset + length < 2^64); [no_straddle nodes r] : every located volume that touches r
+      contains it; [volume_of_merge_first] : NOT the code -- the given ranges sorted and merged
+      before they are looked up. *)
 From CSS Require Import Lib.Base Model.AddrMap Proofs.AddrMap Proofs.AddrMapExt.
 From CSS Require Import Model.Delivered.
 From CSS Require Proofs.Delivered.
+From CSS Require Import Model.VolumeOf Proofs.VolumeOf.
 From Coq Require Import Permutation.
 
 (** * 1. Address maps are mutually inverse — for every 64-bit value and every size *)
@@ -585,3 +598,97 @@ Theorem C14_delivered_presized_witness :
   /\ Proofs.Delivered.delivered_presized content [(4294967290, 3); (4294967291, 4)]
     = Ok [12; 13; 14; 15; 16; 0; 0].
 Proof. repeat split; vm_compute; reflexivity. Qed.
+
+(** * 11. VolumeOf on a LIST of ranges (several ranges per reference, several references, any
+      order, any relation to each other and to the borders between the volumes): the answer is
+      made of ONE look-up per given range as given.  In particular two given ranges that touch
+      each other exactly where two neighbour volumes touch are two look-ups, each inside one
+      volume, and both volumes are in the answer -- looked up as the one range they merge into,
+      the second volume would be missing without any error (C14_volumeof_merge_first_witness). *)
+
+(** the offsets the answer names are exactly those of the volumes picked for the given ranges,
+    each range on its own *)
+Theorem C14_volumeof_list_pointwise :
+  forall nodes rs l,
+    volumes_ok nodes ->
+    volume_of_offsets nodes rs = Ok l ->
+    forall a, covers l a = true <->
+              exists r v, In r rs /\ volume_pick nodes r = Some v /\ in_range v a.
+Proof. exact volume_of_offsets_pointwise. Qed.
+Print Assumptions C14_volumeof_list_pointwise.
+
+(** "returns the volumes that contain the given ranges": for every given range the volume
+    that contains it is in the answer, whole; and every offset the answer names lies in a volume
+    that contains one of the given ranges.
+    _partial: hypothesis [no_straddle] -- no given range straddles the border of a located
+    volume (a range across a border has no enclosing volume; the code answers with the first
+    volume it touches, C14_volumeof_answer). *)
+Theorem C14_volumeof_list_exact_partial :
+  forall nodes rs l,
+    volumes_ok nodes ->
+    (forall r, In r rs -> no_straddle nodes r) ->
+    volume_of_offsets nodes rs = Ok l ->
+    (forall r, In r rs ->
+       exists v, located_volume nodes v /\ contains v r /\ forall a, in_range v a -> covers l a = true) /\
+    (forall a, covers l a = true ->
+       exists r v, In r rs /\ located_volume nodes v /\ contains v r /\ in_range v a).
+Proof. exact volume_of_offsets_exact. Qed.
+Print Assumptions C14_volumeof_list_exact_partial.
+
+(** satisfiable: 64 KiB image, volumes 0+0x1000 and 0x1000+0x4000 are neighbours; the last 100
+    bytes of the first and the first 10 of the second: both volumes (one merged range) *)
+Example C14_volumeof_list_example :
+  volumes_ok ex_nodes /\
+  (forall r, In r [(3996, 100); (4096, 10)] -> no_straddle ex_nodes r) /\
+  volume_of_offsets ex_nodes [(3996, 100); (4096, 10)] = Ok [(0, 20480)].
+Proof. exact ex_hypotheses. Qed.
+
+(** the list fails exactly when one of its ranges, asked alone, has no located volume; there
+    is no third outcome *)
+Theorem C14_volumeof_list_error_iff :
+  forall size nodes rs,
+    ((exists c, volume_of_offsets nodes rs = Err c) <->
+     Exists (fun r => exists c, volume_of_one size nodes r = Err c) rs) /\
+    ((exists l, volume_of_offsets nodes rs = Ok l) \/ volume_of_offsets nodes rs = Err 1).
+Proof. intros. split; [apply volume_of_offsets_error_iff | apply volume_of_offsets_total]. Qed.
+Print Assumptions C14_volumeof_list_error_iff.
+
+(** the order in which the ranges are given is immaterial *)
+Theorem C14_volumeof_list_any_order :
+  forall nodes rs rs' l,
+    volumes_ok nodes -> Permutation rs rs' ->
+    volume_of_offsets nodes rs = Ok l ->
+    exists l', volume_of_offsets nodes rs' = Ok l' /\ forall a, covers l' a = covers l a.
+Proof. exact volume_of_offsets_perm. Qed.
+Print Assumptions C14_volumeof_list_any_order.
+
+(** from the inner source's addresses to offsets and from the volumes' offsets to the addresses
+    of the returned reference: address = 4 GiB - size + offset both ways *)
+Theorem C14_volumeof_given_as_addresses :
+  forall size offs,
+    0 <= size <= BASE -> Forall (fun r => 0 <= fst r <= size) offs ->
+    vref_resolved size (true, map_ranges (fun o => BASE - size + o) offs) = offs.
+Proof. exact resolved_addresses. Qed.
+Print Assumptions C14_volumeof_given_as_addresses.
+
+Theorem C14_volumeof_list_addresses :
+  forall size nodes refs l,
+    0 <= size <= BASE ->
+    (forall v, located_volume nodes v -> 0 <= fst v /\ 0 <= snd v /\ fst v + snd v <= size) ->
+    volume_of size nodes refs = Ok l ->
+    exists m, volume_of_offsets nodes (resolved_all size refs) = Ok m /\
+              l = map (fun x => (BASE - size + fst x, snd x)) m /\
+              forall a, covers l (BASE - size + a) = covers m a.
+Proof. exact volume_of_addresses. Qed.
+Print Assumptions C14_volumeof_list_addresses.
+
+(** teeth: the end of volume 0+0x1000 and the start of its neighbour 0x1000+0x4000, as
+    addresses of the 64 KiB image: both volumes; looked up after merging the GIVEN ranges the
+    neighbour is lost, silently; with one byte of gap between the given ranges the two agree *)
+Theorem C14_volumeof_merge_first_witness :
+  volume_of 65536 ex_nodes [(true, [(4294905756, 100); (4294905856, 10)])] = Ok [(4294901760, 20480)] /\
+  volume_of_merge_first 65536 ex_nodes [(true, [(4294905756, 100); (4294905856, 10)])] = Ok [(4294901760, 4096)] /\
+  volume_of 65536 ex_nodes [(true, [(4294905756, 99); (4294905856, 10)])] = Ok [(4294901760, 20480)] /\
+  volume_of_merge_first 65536 ex_nodes [(true, [(4294905756, 99); (4294905856, 10)])] = Ok [(4294901760, 20480)].
+Proof. exact merge_first_witness. Qed.
+Print Assumptions C14_volumeof_merge_first_witness.
